@@ -415,8 +415,15 @@ class Verdict:
             return 0
         rd = os.path.join(VERIF, "replays", "%s-%s-%d" % (self.pid, tier, int(time.time())))
         os.makedirs(rd, exist_ok=True)
+        summary = {}
+        for x in self.violations:
+            key = x["kind"] + " " + json.dumps({k: val for k, val in x["tags"].items() if k != "kind"}, sort_keys=True, default=str)
+            summary[key] = summary.get(key, 0) + 1
         with open(os.path.join(rd, "violations.json"), "w") as fh:
             json.dump(self.violations[:50], fh, indent=1, ensure_ascii=False, default=str)
+        with open(os.path.join(rd, "summary.json"), "w") as fh:
+            json.dump(summary, fh, indent=1, ensure_ascii=False)
+        print("  %d disagreements in %d classes (see %s/summary.json)" % (len(self.violations), len(summary), rd))
         for v in self.violations[:5]:
             print("  disagreement[%s]: %s" % (v["kind"], json.dumps(v["detail"], ensure_ascii=False, default=str)[:600]))
         print("VIOLATION property=%s replay=%s" % (self.pid, rd))
